@@ -46,7 +46,7 @@ Fixpoint nv (d:dialect) (e:expr) : nat :=
   | EIf c bt bf => nv d c + nvb d bt + nvb d bf
   | EIfOnly c bt => nv d c + nvb d bt
   | ELam _ b => nvb d b
-  | ECall _ _ _ args | EExt _ args | ETuple args | ERecord _ _ args | ESlice args => nvl args
+  | ECall _ _ _ args | EExt _ args | ETuple args | ERecord _ _ _ args | ESlice args => nvl args
   | EPipeVar a _ _ => nv d a
   | EPipeCall a _ args _ | EPipeExt a _ args _ => nv d a + nvl args
   | EField a _ => nv d a
@@ -160,7 +160,7 @@ Fixpoint compile (d:dialect) (k:nat) (e:expr) {struct e} : gexpr :=
              | _ => GFunc rs [ret_stmt u (GCall (GLib fn) (cl (k + nv d a) args ++ map GVar rs))]
              end]
   | ETuple es => GCall (GLib (tuple_fn (List.length es))) (cl k es)                       (* tupleToGo *)
-  | ERecord name fields es => GStructLit name (combine fields (cl k es))                  (* rgToGo *)
+  | ERecord name decl fields es => GStructLit name decl (combine fields (cl k es))        (* rgToGo: as written *)
   | EField a f => GSel (compile d k a) f                                                  (* faToGo *)
   | ECtor u c None => GVar (ctor_name u c)
   | ECtor u c (Some a) => GCall (GVar (ctor_name u c)) [compile d k a]
@@ -272,11 +272,11 @@ Definition ctor_funcs_of (u:udecl) : list (var * (list var * list gstmt)) :=
   flat_map (fun c : string * bool =>
               if snd c
               then [(ctor_name (fst u) (fst c),
-                     (["v"%string], [GSReturn (GStructLit (case_struct (fst u) (fst c)) [("Value"%string, GVar "v"%string)])]))]
+                     (["v"%string], [GSReturn (GStructLit (case_struct (fst u) (fst c)) ["Value"%string] [("Value"%string, GVar "v"%string)])]))]
               else []) (snd u).
 Definition ctor_vars_of (u:udecl) : list (var * gexpr) :=
   flat_map (fun c : string * bool =>
-              if snd c then [] else [(ctor_name (fst u) (fst c), GStructLit (case_struct (fst u) (fst c)) [])])
+              if snd c then [] else [(ctor_name (fst u) (fst c), GStructLit (case_struct (fst u) (fst c)) [] [])])
            (snd u).
 
 Fixpoint compile_funs (d:dialect) (k:nat) (fs:list (var * (list var * block))) : list (var * (list var * list gstmt)) :=
